@@ -311,6 +311,9 @@ class Inliner:
             v = given.get(p, defaults.get(p))
             if v is None:
                 raise CannotInline(f"missing argument {p}")
+            if p not in given and not isinstance(v, (ast.Constant, ast.Name, ast.Attribute)):
+                # a default that is evaluated once at definition time (e.g. a mutable `{}`): inlining would re-evaluate it per call
+                raise CannotInline(f"default of {p} is not a constant")
             simple = isinstance(v, (ast.Name, ast.Constant)) or (isinstance(v, ast.Attribute) and norm(v).count("(") == 0)
             if simple and p not in assigned_in_body:
                 mapping[p] = v
@@ -416,6 +419,36 @@ class Inliner:
                             return self._block(new, depth - 1) + [tail]
                 except CannotInline:
                     pass
+        # for T in self._gen(...): BODY   with a private generator helper: the helper's body with `yield E` -> `T = E; BODY`
+        if isinstance(st, ast.For) and not st.orelse and isinstance(st.iter, ast.Call):
+            r = self.resolve_call(st.iter)
+            if r is not None and _is_generator(r[0]) and not any(isinstance(n, (ast.Break, ast.Continue, ast.Return)) for b in st.body for n in ast.walk(b)):
+                fn, bound = r
+                has_bad = any(isinstance(n, (ast.YieldFrom, ast.Return)) for n in ast.walk(fn) if n is not fn)
+                if not has_bad:
+                    try:
+                        new = self._instantiate(fn, st.iter, bound, None)
+                        target, body = st.target, st.body
+
+                        class Y(ast.NodeTransformer):
+                            def visit_Expr(self, node):
+                                if isinstance(node.value, ast.Yield) and node.value.value is not None:
+                                    assign = ast.Assign(targets=[copy.deepcopy(target)], value=node.value.value)
+                                    ast.copy_location(assign, node)
+                                    return [assign] + [copy.deepcopy(b) for b in body]
+                                return node
+
+                            def visit_FunctionDef(self, node):
+                                return node
+                        out = []
+                        for x in new:
+                            y = Y().visit(x)
+                            out.extend(y if isinstance(y, list) else [y])
+                        for x in out:
+                            ast.fix_missing_locations(x)
+                        return self._block(out, depth - 1)
+                    except CannotInline:
+                        pass
         # expression-level inlining inside the statement, then recurse into compound statements
         st = self._exprs(st, depth)
         for fld in ("body", "orelse", "finalbody"):
@@ -691,14 +724,18 @@ def _literal_elements(repo: Optional[Repo], ci: Optional[ClassInfo], e: ast.expr
         if all(c is not None for c in cols):
             n = min(len(c) for c in cols)
             return [ast.Tuple(elts=[c[i] for c in cols], ctx=ast.Load()) for i in range(n)]
-    if repo is not None:
+    is_range = isinstance(e, ast.Call) and isinstance(e.func, ast.Name) and e.func.id == "range"
+    is_const_name = isinstance(e, (ast.Name, ast.Attribute))
+    if repo is not None and (is_range or is_const_name):
         try:
             v = repo.fold(e, ci=ci)
         except Exception:
             v = None
         if isinstance(v, range):
             v = tuple(v)
-        if isinstance(v, (tuple, list)) and len(v) <= MAX_UNROLL and all(isinstance(x, (str, int, bytes)) or
+        elif not isinstance(v, tuple):
+            v = None              # only immutable tuples count as constants (a class-level list/dict is state, not a constant)
+        if isinstance(v, (tuple, list)) and 0 < len(v) <= MAX_UNROLL and all(isinstance(x, (str, int, bytes)) or
                                                                             (isinstance(x, tuple) and all(isinstance(y, (str, int)) for y in x)) for x in v):
             out = []
             for x in v:
@@ -774,8 +811,19 @@ def unroll(fn: ast.FunctionDef, repo: Optional[Repo] = None, ci: Optional[ClassI
             if isinstance(st, ast.For) and not st.orelse:
                 it = expr_unroll(copy.deepcopy(st.iter), env)
                 els = _literal_elements(repo, ci, it, env)
-                has_flow = any(isinstance(n, (ast.Break, ast.Continue)) for b in st.body for n in ast.walk(b)
-                               if not isinstance(n, (ast.For, ast.While)))
+                def own_flow(stmts) -> bool:
+                    for b in stmts:
+                        if isinstance(b, (ast.Break, ast.Continue)):
+                            return True
+                        if isinstance(b, (ast.For, ast.While, ast.AsyncFor, ast.FunctionDef, ast.ClassDef)):
+                            continue          # break/continue inside belong to that loop
+                        for fld in ("body", "orelse", "finalbody"):
+                            if isinstance(getattr(b, fld, None), list) and own_flow(getattr(b, fld)):
+                                return True
+                        if isinstance(b, ast.Try) and any(own_flow(h.body) for h in b.handlers):
+                            return True
+                    return False
+                has_flow = own_flow(st.body)
                 if els is not None and not has_flow:
                     ok = True
                     pieces: List[ast.stmt] = []
@@ -873,3 +921,82 @@ def unroll(fn: ast.FunctionDef, repo: Optional[Repo] = None, ci: Optional[ClassI
 def normalize(repo: Repo, ci: Optional[ClassInfo], fn: ast.FunctionDef, sf: Optional[SourceFile] = None, **kw) -> ast.FunctionDef:
     """flatten, then unroll: the form in which rules read a function."""
     return unroll(flatten(repo, ci, fn, sf, **kw), repo, ci)
+
+
+# ------------------------------------------------------------------------------------ attribution of private helpers
+def _all_functions(tree: ast.AST):
+    def rec(node, prefix):
+        for ch in ast.iter_child_nodes(node):
+            if isinstance(ch, (ast.FunctionDef, ast.AsyncFunctionDef)):
+                yield f"{prefix}{ch.name}", ch
+                yield from rec(ch, f"{prefix}{ch.name}.")
+            elif isinstance(ch, ast.ClassDef):
+                yield from rec(ch, f"{prefix}{ch.name}.")
+            else:
+                yield from rec(ch, prefix)
+    yield from rec(tree, "")
+
+
+_MENTIONS: Dict[int, Dict[str, Set[Tuple[str, str]]]] = {}
+
+
+def mentions(repo: Repo) -> Dict[str, Set[Tuple[str, str]]]:
+    """identifier -> {(file, qualified function or '<module>')} in which it is mentioned (loaded as a name or attribute)."""
+    key = id(repo)
+    if key in _MENTIONS:
+        return _MENTIONS[key]
+    out: Dict[str, Set[Tuple[str, str]]] = {}
+    for rel, sf in repo.files.items():
+        if not sf.modname.startswith(("rv", "genrv")):
+            continue
+        fns = list(_all_functions(sf.tree))
+        seen = set()
+        for qn, fn in fns:
+            for n in ast.walk(fn):
+                if any(n is d for d in ()):      # pragma: no cover
+                    continue
+                nm = None
+                if isinstance(n, ast.Name) and isinstance(n.ctx, ast.Load):
+                    nm = n.id
+                elif isinstance(n, ast.Attribute) and isinstance(n.ctx, ast.Load):
+                    nm = n.attr
+                if nm is not None and nm.startswith("_") and not nm.startswith("__"):
+                    # attribute the mention to the innermost function: nested defs are walked again on their own, so keep the deepest
+                    out.setdefault(nm, set()).add((rel, qn))
+            seen.add(id(fn))
+        for st in sf.tree.body:
+            if not isinstance(st, (ast.FunctionDef, ast.ClassDef, ast.AsyncFunctionDef)):
+                for n in ast.walk(st):
+                    nm = n.id if isinstance(n, ast.Name) else (n.attr if isinstance(n, ast.Attribute) else None)
+                    if nm is not None and nm.startswith("_") and not nm.startswith("__"):
+                        out.setdefault(nm, set()).add((rel, "<module>"))
+    _MENTIONS[key] = out
+    return out
+
+
+def attributed_to(repo: Repo, rel: str, qualname: str, depth: int = 0) -> Tuple[str, str]:
+    """The function a *private* helper's effects are accounted to: if every mention of the helper's name lies in one other
+    function of the same file (followed through further private helpers), that function; otherwise the helper itself."""
+    name = qualname.rsplit(".", 1)[-1]
+    if not (name.startswith("_") and not name.startswith("__")) or depth > 4:
+        return rel, qualname
+    prefix = qualname.rsplit(".", 1)[0] + "." if "." in qualname else ""
+    users = {(r, q) for r, q in mentions(repo).get(name, set()) if not (r == rel and (q == qualname or q.startswith(qualname + ".")))}
+    # a nested function mention also counts for its enclosing functions: keep only same-class/module users
+    users = {(r, q) for r, q in users}
+    tops = set()
+    for r, q in users:
+        if r != rel:
+            return rel, qualname
+        # enclosing chain: Outer.f.inner mentions count as Outer.f
+        parts = q.split(".")
+        cand = q
+        tops.add(cand)
+    # drop users that are nested inside another user
+    tops = {q for q in tops if not any(q != o and q.startswith(o + ".") for o in tops)}
+    if len(tops) != 1:
+        return rel, qualname
+    (only,) = tops
+    if not only.startswith(prefix) and prefix:
+        return rel, qualname
+    return attributed_to(repo, rel, only, depth + 1)
